@@ -236,8 +236,10 @@ impl Executor {
         let _ = std::fs::set_permissions(&trace_path, std::fs::Permissions::from_mode(0o666));
         let cwd = if scenario.world.cwd.is_empty() { root.clone() } else { root.join(&scenario.world.cwd) };
 
+        // "@ROOT@" in an argument stands for the absolute path of this execution's world
+        let argv: Vec<String> = scenario.argv.iter().map(|a| a.replace("@ROOT@", &sim.root)).collect();
         let mut cmd = Command::new(&self.simhost);
-        cmd.args(&scenario.argv)
+        cmd.args(&argv)
             .current_dir(&cwd)
             .env_clear()
             .env("SIM_SCENARIO", &sc_path)
